@@ -288,8 +288,34 @@ def plain_classes():
         def __repr__(self):
             raise RuntimeError("repr() of this node is not available")
 
+    import collections
+
+    class TupleNode(collections.namedtuple("Record", "f0 f1"), NodeMixin):
+        """A record-like node: the node IS a tuple (iterable, sized, compares by value, '%s' % node unpacks it)."""
+
+        def __new__(cls, name):
+            return super(TupleNode, cls).__new__(cls, "rec", 2)
+
+        def __init__(self, name):
+            self.name = name
+
+        def __repr__(self):
+            return "TupleNode(%r)" % (self.name,)
+
+    class Tuple0(tuple, NodeMixin):
+        """The empty record: additionally falsy."""
+
+        def __new__(cls, name):
+            return super(Tuple0, cls).__new__(cls)
+
+        def __init__(self, name):
+            self.name = name
+
+        def __repr__(self):
+            return "Tuple0(%r)" % (self.name,)
+
     _PLAIN.update(node=Node, anynode=AnyNode, user=UserNode, light=UserLight, weird=Weird, eqhash=EqHash, falsy=Falsy,
-                  falsylight=FalsyLight, norepr=NoRepr, container=Container)
+                  falsylight=FalsyLight, norepr=NoRepr, container=Container, tuplenode=TupleNode, tuple0=Tuple0)
     return _PLAIN
 
 
